@@ -341,9 +341,10 @@ class Engine:
         if not t and not el:
             return
         key = (mod.name, func.name)
-        old = self.done.get(key, (frozenset(), frozenset()))
-        new = (old[0] | frozenset(t), old[1] | frozenset(el))
-        if new != old:
+        done = self.done.get(key, (frozenset(), frozenset()))
+        pend = self.pending.get(key, (frozenset(), frozenset()))
+        new = (done[0] | pend[0] | frozenset(t), done[1] | pend[1] | frozenset(el))
+        if new != done:
             self.pending[key] = new
 
     def run(self):
